@@ -328,7 +328,7 @@ Tokens(ast)          == UNION { { <<f, p>> : p \in PathsOf(TopOf(ast, f), <<>>) 
                         \* only the files reachable by an include matter; the families include every file they have
 Damage(ast, f, p, e) == WithTop(ast, f, PutAt(TopOf(ast, f), p, e))
 
-InsertAt(s, i, c) == SubSeq(s, 1, i) \o c \o From(s, i + 1)          \* c after the first i characters
+InsStr(s, i, c) == SubSeq(s, 1, i) \o c \o From(s, i + 1)          \* c after the first i characters
 Digs(t) == IF IsSizeLit(t) THEN SubSeq(t, 1, Len(t) - 1) ELSE t      \* the integer part of a numeric token
 
 EnumKeys == {"mode", "level", "load_balancer_mode"}
@@ -342,13 +342,13 @@ Variants(e) ==
        <<"NonAscii", [e EXCEPT !.ob = "{" \o NA]>>, <<"NonAscii", [e EXCEPT !.cb = "}" \o NA]>> }
      \cup (IF e.t = "host" THEN { <<"UnterminatedQuote", [e EXCEPT !.ps = <<SubSeq(@[1], 1, Len(@[1]) - 1)>>]>>,
                                   <<"UnterminatedQuote", [e EXCEPT !.ps = <<From(@[1], 2)>>]>>,
-                                  <<"NonAscii", [e EXCEPT !.ps = <<InsertAt(@[1], Len(@[1]) - 1, NA)>>]>> }
+                                  <<"NonAscii", [e EXCEPT !.ps = <<InsStr(@[1], Len(@[1]) - 1, NA)>>]>> }
            ELSE {})
      \cup (IF e.t = "route" THEN { <<"NonAscii", [e EXCEPT !.ps = [@ EXCEPT ![Len(@)] = @ \o NA]]>> } ELSE {})
    ELSE
      { <<"MissingValue", [e EXCEPT !.v = ""]>> }
-     \cup { <<"NonAscii", [e EXCEPT !.v = InsertAt(@, i, NA)]>> : i \in NAPositions(e.v) }
-     \cup (IF e.t = "key" THEN { <<"NonAscii", [e EXCEPT !.k = InsertAt(@, i, NA)]>> : i \in {0, Len(e.k)} } ELSE {})
+     \cup { <<"NonAscii", [e EXCEPT !.v = InsStr(@, i, NA)]>> : i \in NAPositions(e.v) }
+     \cup (IF e.t = "key" THEN { <<"NonAscii", [e EXCEPT !.k = InsStr(@, i, NA)]>> : i \in {0, Len(e.k)} } ELSE {})
      \cup (IF IsStrLit(e.v) THEN { <<"UnterminatedQuote", [e EXCEPT !.v = SubSeq(@, 1, Len(@) - 1)]>>,
                                    <<"UnterminatedQuote", [e EXCEPT !.v = From(@, 2)]>> } ELSE {})
      \cup (IF e.t = "inc" THEN { <<"NoSuchInclude", [e EXCEPT !.f = 0]>> } ELSE {})
@@ -657,9 +657,9 @@ RECURSIVE NodeRoutes(_)      \* get_routes + parse_host over the children of a S
 NodeRoutes(ch) == IF ch = <<>> THEN <<>>
                   ELSE (IF Head(ch).n = "Route" THEN ParseRoute(Head(ch).k, Flat(Head(ch).ch, "")) ELSE <<>>)
                        \o NodeRoutes(Tail(ch))
-RECURSIVE Reverse(_)
-Reverse(s) == IF s = <<>> THEN <<>> ELSE Append(Reverse(Tail(s)), Head(s))
-HostRoutes(ch) == IF "ReverseRoutes" \in Dev THEN Reverse(NodeRoutes(ch)) ELSE NodeRoutes(ch)
+RECURSIVE RevSeq(_)
+RevSeq(s) == IF s = <<>> THEN <<>> ELSE Append(RevSeq(Tail(s)), Head(s))
+HostRoutes(ch) == IF "ReverseRoutes" \in Dev THEN RevSeq(NodeRoutes(ch)) ELSE NodeRoutes(ch)
 RECURSIVE NodeHosts(_)
 NodeHosts(ch) == IF ch = <<>> THEN <<>>
                  ELSE (IF Head(ch).n = "Host" THEN <<[matches |-> Head(ch).k, routes |-> HostRoutes(Head(ch).ch)]>> ELSE <<>>)
